@@ -386,3 +386,298 @@ def load_vocabulary():
     if not os.path.exists(p):
         return None
     return json.load(open(p))
+
+
+# --------------------------------------------------------------------------------------------------------------
+# Iterator adaptors with a closure of the crate: `it.all(|x| p)`, `any`, `find`, `position`, `for_each` are the loops
+# they abbreviate.  The call is replaced by `loop { match it.next() { None => .., Some(x) => <closure body> } }` with
+# the closure's body spliced in (captured variables become the caller's own places), so that a hand-written loop and
+# the adaptor form reach the analyses as the same control flow.  Anything unusual (a closure created elsewhere, a
+# by-value environment, an environment used other than through its fields) leaves the call as it is.
+
+ADAPTORS = {
+    "std::iter::Iterator::all": "all",
+    "std::iter::Iterator::any": "any",
+    "std::iter::Iterator::find": "find",
+    "std::iter::Iterator::position": "position",
+    "std::iter::Iterator::for_each": "for_each",
+}
+
+
+def _places(node, fn):
+    """Applies fn to every place dict ({"l":..,"p":[..]}) in node, in place (fn may mutate / return replacement)."""
+    if isinstance(node, list):
+        for i, x in enumerate(node):
+            r = _places(x, fn)
+            if r is not None:
+                node[i] = r
+        return None
+    if not isinstance(node, dict):
+        return None
+    if "l" in node and "p" in node and isinstance(node["p"], list) and isinstance(node["l"], int):
+        for x in node["p"]:
+            _places(x, fn)
+        return fn(node)
+    for k, v in list(node.items()):
+        r = _places(v, fn)
+        if r is not None:
+            node[k] = r
+    return None
+
+
+# the path under which rustc resolves `<T as Iterator>::next` for the iterator types of std that occur in this crate
+# (the same strings as for the `next` calls of hand-written `for` loops, so that both forms render alike)
+_NEXT_IMPLS = (
+    ("std::ops::Range<", "std::iter::range::<impl std::iter::Iterator for std::ops::Range<A>>::next"),
+    ("std::ops::RangeInclusive<", "std::iter::range::<impl std::iter::Iterator for std::ops::RangeInclusive<A>>::next"),
+    ("std::slice::Iter<", "<std::slice::Iter<'a, T> as std::iter::Iterator>::next"),
+    ("std::slice::IterMut<", "<std::slice::IterMut<'a, T> as std::iter::Iterator>::next"),
+    ("std::str::Chars<", "<std::str::Chars<'a> as std::iter::Iterator>::next"),
+    ("std::str::CharIndices<", "<std::str::CharIndices<'a> as std::iter::Iterator>::next"),
+    ("std::vec::IntoIter<", "<std::vec::IntoIter<T, A> as std::iter::Iterator>::next"),
+    ("std::boxed::Box<", "std::boxed::iter::<impl std::iter::Iterator for std::boxed::Box<I, A>>::next"),
+    ("&mut ", "<&mut I as std::iter::Iterator>::next"),
+    ("std::iter::Enumerate<", "<std::iter::Enumerate<I> as std::iter::Iterator>::next"),
+    ("std::iter::Skip<", "<std::iter::Skip<I> as std::iter::Iterator>::next"),
+    ("std::iter::Take<", "<std::iter::Take<I> as std::iter::Iterator>::next"),
+    ("std::iter::Rev<", "<std::iter::Rev<I> as std::iter::Iterator>::next"),
+    ("std::iter::Peekable<", "<std::iter::Peekable<I> as std::iter::Iterator>::next"),
+    ("std::iter::Copied<", "<std::iter::Copied<I> as std::iter::Iterator>::next"),
+    ("std::iter::Cloned<", "<std::iter::Cloned<I> as std::iter::Iterator>::next"),
+    ("std::iter::Zip<", "<std::iter::Zip<A, B> as std::iter::Iterator>::next"),
+    ("std::iter::Chain<", "<std::iter::Chain<A, B> as std::iter::Iterator>::next"),
+    ("std::iter::Map<", "<std::iter::Map<I, F> as std::iter::Iterator>::next"),
+    ("std::iter::Filter<", "<std::iter::Filter<I, P> as std::iter::Iterator>::next"),
+    ("std::iter::FilterMap<", "<std::iter::FilterMap<I, F> as std::iter::Iterator>::next"),
+    ("std::iter::TakeWhile<", "<std::iter::TakeWhile<I, P> as std::iter::Iterator>::next"),
+    ("std::iter::SkipWhile<", "<std::iter::SkipWhile<I, P> as std::iter::Iterator>::next"),
+)
+
+
+def _next_impl_path(iter_ty):
+    for pre, res in _NEXT_IMPLS:
+        if iter_ty.startswith(pre):
+            return res
+    return "<%s as std::iter::Iterator>::next" % iter_ty
+
+
+class _Abort(Exception):
+    pass
+
+
+def _bool_const(v):
+    return {"k": "const", "ty": "bool", "bool": v}
+
+
+def _local(ty, mut=True):
+    return {"ty": ty, "name": None, "user": False, "mut": mut}
+
+
+def _desugar_one(c, bi, kind, fn, by_path, strip_lt):
+    blk = c["blocks"][bi]
+    t = blk["term"]
+    a_it, a_cl = t["args"]
+    if a_cl.get("k") not in ("move", "copy") or a_cl["place"]["p"] or a_it.get("k") not in ("move", "copy"):
+        return None
+    lc = a_cl["place"]["l"]
+    sites = [(i, j) for i, b2 in enumerate(c["blocks"]) for j, st in enumerate(b2["stmts"]) if st["k"] == "assign" and st["place"]["l"] == lc and not st["place"]["p"]]
+    if len(sites) != 1 or sites[0][0] != bi:
+        return None
+    sj = sites[0][1]
+    agg = blk["stmts"][sj]["rv"]
+    if agg.get("k") != "agg" or agg.get("agg") != "closure":
+        return None
+    cpath = strip_lt(agg["def"])
+    f = by_path.get(cpath)
+    if f is None or f.get("kind") != "Closure" or f["argc"] != 2 or len(f["blocks"]) > MAX_BLOCKS:
+        return None
+    if not strip_lt(f["locals"][1]["ty"]).startswith("&"):
+        return None
+    caps = []
+    for op in agg["fields"]:
+        if op.get("k") not in ("move", "copy") or op["place"]["p"]:
+            return None
+        lk = op["place"]["l"]
+        defs = [st for b2 in c["blocks"] for st in b2["stmts"] if st["k"] == "assign" and st["place"]["l"] == lk and not st["place"]["p"]]
+        ref = None
+        if len(defs) == 1 and defs[0]["rv"]["k"] == "ref" and not c["locals"][lk].get("user"):
+            ref = defs[0]["rv"]["place"]
+        caps.append((lk, ref))
+    iter_ty = (fn.get("targs") or ["?"])[0]
+    arg_ty = f["locals"][2]["ty"]
+    item_ty = arg_ty[1:] if kind == "find" and arg_ty.startswith("&") else arg_ty
+    if kind == "find" and not arg_ty.startswith("&"):
+        return None
+    by_ref = kind != "for_each"
+    it_place = copy.deepcopy(a_it["place"])
+    move_from = None  # the iterator value is moved into a local of its own, as `for` does with into_iter's result
+    if by_ref:
+        it_place = {"l": it_place["l"], "p": list(it_place["p"]) + ["deref"]}
+        if not a_it["place"]["p"]:
+            la = a_it["place"]["l"]
+            defs = [st for b2 in c["blocks"] for st in b2["stmts"] if st["k"] == "assign" and st["place"]["l"] == la and not st["place"]["p"]]
+            if len(defs) == 1 and defs[0]["rv"]["k"] == "ref" and defs[0]["rv"].get("mut") and not defs[0]["rv"]["place"]["p"]:
+                src = defs[0]["rv"]["place"]["l"]
+                uses = json.dumps([[st for st in b2["stmts"] if st.get("k") not in ("live", "dead")] for b2 in c["blocks"]] + [b2["term"] for b2 in c["blocks"]]).count('"l": %d' % src)
+                if not c["locals"][src].get("user") and uses <= 2:  # its definition and this borrow
+                    move_from = {"l": src, "p": []}
+    elif not a_it["place"]["p"]:
+        move_from = copy.deepcopy(a_it["place"])
+    line = t.get("line")
+    # new locals of the caller
+    L = c["locals"]
+    base = len(L)
+    r_iter, opt, disc, item = base, base + 1, base + 2, base + 3
+    L.extend([_local("&mut " + iter_ty), _local("std::option::Option<%s>" % item_ty), _local("isize"), _local(item_ty)])
+    item_ref = idx = None
+    if kind == "find":
+        item_ref = len(L)
+        L.append(_local("&" + item_ty))
+    if kind == "position":
+        idx = len(L)
+        L.append(_local("usize"))
+    if move_from is not None:
+        iterv = len(L)
+        L.append(_local(iter_ty))
+        it_place = {"l": iterv, "p": []}
+    lo, po = len(L), len(c.get("promoted", []))
+    n0 = len(c["blocks"])
+    H, D, U, SOME, NONE, RET, EXIT, INC = n0, n0 + 1, n0 + 2, n0 + 3, n0 + 4, n0 + 5, n0 + 6, n0 + 7
+    bo = n0 + 8
+    fb = _remap(copy.deepcopy(f["blocks"]), lo, bo, po)
+    env = lo + 1
+
+    def subst(pl):
+        if pl["l"] != env:
+            return None
+        p = pl["p"]
+        if len(p) < 2 or p[0] != "deref" or not isinstance(p[1], dict) or "i" not in p[1] or p[1]["i"] >= len(caps):
+            raise _Abort()
+        lk, ref = caps[p[1]["i"]]
+        rest = p[2:]
+        if ref is not None and rest and rest[0] == "deref":
+            return {"l": ref["l"], "p": copy.deepcopy(ref["p"]) + rest[1:]}
+        return {"l": lk, "p": rest}
+
+    try:
+        _places(fb, subst)
+    except _Abort:
+        del L[base:]
+        return None
+    # any remaining mention of the environment local (live/dead markers aside) means we did not understand it
+    for nb in fb:
+        nb["stmts"] = [st for st in nb["stmts"] if not (st["k"] in ("live", "dead") and st.get("l") == env)]
+    if ('"l": %d,' % env) in json.dumps(fb) or ('"l": %d}' % env) in json.dumps(fb):
+        del L[base:]
+        return None
+    cleanup = blk.get("cleanup", False)
+    for nb in fb:
+        nt = nb["term"]
+        if nt["k"] == "return":
+            nb["term"] = {"k": "goto", "t": RET}
+        elif nt["k"] == "resume":
+            if t.get("unwind") is not None:
+                nb["term"] = {"k": "goto", "t": t["unwind"]}
+    L.extend(copy.deepcopy(f["locals"]))
+    c.setdefault("promoted", []).extend(copy.deepcopy(f.get("promoted", [])))
+    ret = lo
+    # the creating block: drop the closure value and the markers that would end the captured temporaries
+    cap_locals = {lk for lk, _ in caps}
+    blk["stmts"] = [st for j, st in enumerate(blk["stmts"]) if j != sj and not (st["k"] == "dead" and st.get("l") in cap_locals) and not (st["k"] in ("live", "dead") and st.get("l") == lc)]
+    if kind == "position":
+        blk["stmts"].append({"k": "assign", "place": {"l": idx, "p": []}, "rv": {"k": "use", "op": {"k": "const", "ty": "usize", "int": 0}}, "line": line, "exp": False})
+    if move_from is not None:
+        blk["stmts"].append({"k": "assign", "place": {"l": it_place["l"], "p": []}, "rv": {"k": "use", "op": {"k": "move", "place": move_from}}, "line": line, "exp": False})
+    dest, after = t["dest"], t["t"]
+    blk["term"] = {"k": "goto", "t": H}
+
+    def assign(place, rv):
+        return {"k": "assign", "place": place, "rv": rv, "line": line, "exp": False}
+
+    next_fn = {"def": "std::iter::Iterator::next", "inst": "<%s as std::iter::Iterator>::next" % iter_ty, "targs": [iter_ty], "local": False, "trait": "std::iter::Iterator", "res_local": False, "res_kind": "item"}
+    next_fn["res"] = _next_impl_path(iter_ty)
+    next_fn["res_inst"] = next_fn["inst"]
+    some_payload = {"l": opt, "p": [{"downcast": "Some", "v": 1}, {"f": "0", "i": 0, "adt": "std::option::Option", "ty": item_ty}]}
+    opt_some = lambda op: {"k": "agg", "agg": "adt", "adt": "std::option::Option", "variant": "Some", "vidx": 1, "fnames": ["0"], "fields": [op]}
+    opt_none = {"k": "agg", "agg": "adt", "adt": "std::option::Option", "variant": "None", "vidx": 0, "fnames": [], "fields": []}
+    new = []
+    new.append({"stmts": [assign({"l": r_iter, "p": []}, {"k": "ref", "mut": True, "place": it_place})],
+                "term": {"k": "call", "func": {"k": "const", "ty": "fn(&mut %s) -> std::option::Option<%s> {<%s as std::iter::Iterator>::next}" % (iter_ty, item_ty, iter_ty), "fn": next_fn}, "args": [{"k": "move", "place": {"l": r_iter, "p": []}}], "dest": {"l": opt, "p": []}, "t": D, "unwind": t.get("unwind"), "line": line, "exp": False},
+                "cleanup": cleanup})
+    new.append({"stmts": [assign({"l": disc, "p": []}, {"k": "discr", "place": {"l": opt, "p": []}, "ty": "std::option::Option<%s>" % item_ty, "variants": [[0, "None"], [1, "Some"]]})],
+                "term": {"k": "switch", "op": {"k": "move", "place": {"l": disc, "p": []}}, "ty": "isize", "targets": [[0, NONE], [1, SOME]], "otherwise": U, "line": line, "exp": False},
+                "cleanup": cleanup})
+    new.append({"stmts": [], "term": {"k": "unreachable"}, "cleanup": cleanup})
+    some_stmts = [assign({"l": item, "p": []}, {"k": "use", "op": {"k": "move", "place": some_payload}})]
+    if kind == "find":
+        some_stmts.append(assign({"l": item_ref, "p": []}, {"k": "ref", "mut": False, "place": {"l": item, "p": []}}))
+        some_stmts.append(assign({"l": lo + 2, "p": []}, {"k": "use", "op": {"k": "move", "place": {"l": item_ref, "p": []}}}))
+    else:
+        some_stmts.append(assign({"l": lo + 2, "p": []}, {"k": "use", "op": {"k": "move", "place": {"l": item, "p": []}}}))
+    new.append({"stmts": some_stmts, "term": {"k": "goto", "t": bo}, "cleanup": cleanup})
+    none_val = {"all": {"k": "use", "op": _bool_const(True)}, "any": {"k": "use", "op": _bool_const(False)}, "find": opt_none, "position": opt_none, "for_each": {"k": "use", "op": {"k": "const", "ty": "()", "zst": True}}}[kind]
+    new.append({"stmts": [assign(copy.deepcopy(dest), none_val)], "term": {"k": "goto", "t": after}, "cleanup": cleanup})
+    sw = lambda zero, other: {"k": "switch", "op": {"k": "move", "place": {"l": ret, "p": []}}, "ty": "bool", "targets": [[0, zero]], "otherwise": other, "line": line, "exp": False}
+    if kind == "all":
+        new.append({"stmts": [], "term": sw(EXIT, H), "cleanup": cleanup})
+        exit_val = {"k": "use", "op": _bool_const(False)}
+    elif kind == "any":
+        new.append({"stmts": [], "term": sw(H, EXIT), "cleanup": cleanup})
+        exit_val = {"k": "use", "op": _bool_const(True)}
+    elif kind == "find":
+        new.append({"stmts": [], "term": sw(H, EXIT), "cleanup": cleanup})
+        exit_val = opt_some({"k": "move", "place": {"l": item, "p": []}})
+    elif kind == "position":
+        new.append({"stmts": [], "term": sw(INC, EXIT), "cleanup": cleanup})
+        exit_val = opt_some({"k": "copy", "place": {"l": idx, "p": []}})
+    else:
+        new.append({"stmts": [], "term": {"k": "goto", "t": H}, "cleanup": cleanup})
+        exit_val = {"k": "use", "op": {"k": "const", "ty": "()", "zst": True}}
+    new.append({"stmts": [assign(copy.deepcopy(dest), exit_val)], "term": {"k": "goto", "t": after}, "cleanup": cleanup})
+    inc_stmts = []
+    if kind == "position":
+        inc_stmts.append(assign({"l": idx, "p": []}, {"k": "bin", "op": "Add", "a": {"k": "copy", "place": {"l": idx, "p": []}}, "b": {"k": "const", "ty": "usize", "int": 1}}))
+    new.append({"stmts": inc_stmts, "term": {"k": "goto", "t": H}, "cleanup": cleanup})
+    assert len(new) == 8
+    for nb in fb:
+        if cleanup:
+            nb["cleanup"] = True
+    c["blocks"].extend(new)
+    c["blocks"].extend(fb)
+    return cpath
+
+
+def desugar_iterator_adaptors(raw, strip_lt, log=None):
+    if raw.get("crate") != "regexml":
+        return []
+    bodies = raw["bodies"]
+    by_path = {}
+    for b in bodies:
+        by_path.setdefault(strip_lt(b["path"]), b)
+    done = []
+    vp = os.path.join(os.path.dirname(os.path.abspath(__file__)), "vocabulary_adaptors.json")
+    reference = json.load(open(vp)) if os.path.exists(vp) else {}
+    for c in bodies:
+        bi = 0
+        keep = reference.get(strip_lt(c["path"]).split("::{closure")[0], {})
+        while bi < len(c["blocks"]) and len(c["blocks"]) < 4000:
+            blk = c["blocks"][bi]
+            t = blk["term"]
+            if t["k"] == "call" and not blk.get("cleanup"):
+                f = t.get("func", {})
+                fn = f.get("fn") if f.get("k") == "const" else None
+                kind = ADAPTORS.get(fn.get("def")) if fn else None
+                if kind and not keep.get(kind) and len(t.get("args", [])) == 2 and t.get("t") is not None and t.get("dest") is not None:
+                    cp = _desugar_one(c, bi, kind, fn, by_path, strip_lt)
+                    if cp:
+                        done.append((strip_lt(c["path"]), kind, cp))
+            bi += 1
+    if done:
+        # closure bodies that no aggregate creates any more are gone from the program
+        s = json.dumps([b["blocks"] for b in bodies])
+        gone = {d[2] for d in done if json.dumps(d[2])[1:-1] not in s}
+        # (the path may still occur in type strings `{closure@file:line}`; those do not contain the def path)
+        raw["bodies"] = [b for b in bodies if strip_lt(b["path"]) not in gone and not any(strip_lt(b["path"]).startswith(g + "::") for g in gone)]
+    if log and done:
+        log("desugared %d iterator adaptor call(s)" % len(done))
+    return done
